@@ -94,7 +94,8 @@ def harness(src, runner, budget):
         obs = [Ob(f"C04/no-escape/{lab}@{runner}", z3.BoolVal(True))]
         if kind == "error":
             bad = skel.render_error(v)
-            obs.append(Ob(f"C04/error-renders/{lab}@{runner}", z3.BoolVal(bad is None), note=f"`{src}`: rendering the error raised {bad}"))
+            obs.append(Ob(f"C04/error-renders/{lab}@{runner}", z3.BoolVal(bad is None), note=f"`{src}`: rendering the error raised {bad}",
+                          tags={"exc": (bad or "").split(":")[0], "empty_list_literal": "[]" in src.replace(" ", "")}))
         return obs
 
     def witness(vals):
